@@ -83,6 +83,9 @@ fn main() {
             for burst in [1usize, 9, 10, 12, 30] {
                 writeln!(out, "{}", mux::probe_backlog(burst)).unwrap();
             }
+            for burst in [9usize, 12] {
+                writeln!(out, "{}", mux::probe_burst_real(burst).await).unwrap();
+            }
             for n in [90usize, 100, 101, 150] {
                 writeln!(out, "{}", mux::probe_flood_real(n).await).unwrap();
             }
